@@ -104,12 +104,13 @@ def fam(index):
         ext = ExternRule("Word", ["vfrt", "vfu", "ext_ident"])
         tail = Rule("Tail", Cho([Seq([Ref("Probe0"), Ref("Num", "n")])]), ["memoize"])
         num = Rule("Num", Cho([Seq([Ref("Probe1"), Grp(Cho([Seq([Clo(Cho([Seq([Rng("0", "9")])]), True)])]))])]), ["memoize", "string", "no_skip_ws"])
-        s = Rule("Ss", Cho([Seq([Ref("Word", "w"), Ref("Tail", "t"), L("!"), Eoi()]),
+        s = Rule("Ss", Cho([Seq([Ref("Tail", "t"), L("#"), Eoi()]),
+                            Seq([Ref("Word", "w"), Ref("Tail", "t"), L("!"), Eoi()]),
                             Seq([L("abc"), Ref("Tail", "t"), L("?"), Eoi()]),
                             Seq([Clo(Cho([Seq([Rng("a", "z")])]), True), Ref("Tail", "t"), L(";"), Eoi()]),
                             Seq([Ref("Word", "w"), Ref("Tail", "t"), Eoi()])]), ["export", "no_skip_ws"])
         g = Grammar([s, tail, num, ext] + probe_rules(2))
-        ins = ["abc123?", "abc123!", "abc123;", "abc123", "abc?", "abc", "xy7;", "xy7#", "q1", "abc12x", ""]
+        ins = ["abc123?", "abc123!", "abc123;", "abc123", "abc?", "abc", "xy7;", "xy7#", "q1", "abc12x", "", "12#", "7", "ab1!", "zz99"]
         return g, {"Ss": ins}, []
     if k == 0:
         # nested brackets, three alternatives sharing the prefix '(' A
